@@ -22,6 +22,7 @@ import (
 	"fmt"
 	"math/rand"
 	"os"
+	"runtime"
 	"sort"
 	"strconv"
 	"strings"
@@ -29,6 +30,7 @@ import (
 	"time"
 
 	"github.com/named-data/ndnd/fw/core"
+	"github.com/named-data/ndnd/fw/defn"
 	"github.com/named-data/ndnd/fw/face"
 	"github.com/named-data/ndnd/fw/table"
 	enc "github.com/named-data/ndnd/std/encoding"
@@ -211,29 +213,61 @@ func stratStr(n enc.Name) string {
 type faceMapT struct {
 	real    map[uint64]uint64 // logical -> FaceID
 	logical map[uint64]uint64 // FaceID -> logical
+	tr      map[uint64]*face.VerifTransport
 }
 
 var curFaces *faceMapT
 
 func newFaceMap() *faceMapT {
-	return &faceMapT{real: map[uint64]uint64{}, logical: map[uint64]uint64{}}
+	return &faceMapT{real: map[uint64]uint64{}, logical: map[uint64]uint64{}, tr: map[uint64]*face.VerifTransport{}}
 }
 
+// id: the FaceID of a logical face; the face is a real NDNLP link service over an in-memory transport, started with
+// Run (face table registration, receive and send goroutines) the first time it is mentioned
 func (m *faceMapT) id(logical uint64) uint64 {
 	if id, ok := m.real[logical]; ok {
 		return id
 	}
-	l := face.MakeNullLinkService(face.MakeNullTransport())
-	face.FaceTable.Add(l)
+	t := face.NewVerifTransport(8800, defn.NonLocal)
+	l := face.MakeNDNLPLinkService(t, face.MakeNDNLPLinkServiceOptions())
+	l.Run(nil)
 	m.real[logical] = l.FaceID()
 	m.logical[l.FaceID()] = logical
+	m.tr[logical] = t
 	return l.FaceID()
 }
 
+
+// waitGoroutines waits until at most n goroutines are left (the two goroutines of a link service end only after its
+// teardown -- FaceTable.Remove and Rib.CleanUpFace -- has returned)
+func waitGoroutines(n int) {
+	deadline := time.Now().Add(2 * time.Second)
+	for runtime.NumGoroutine() > n && time.Now().Before(deadline) {
+		time.Sleep(100 * time.Microsecond)
+	}
+}
+
+// closeFace: the transport ends; the link service's own goroutines tear the face down (runSend -> FaceTable.Remove ->
+// Rib.CleanUpFace).  Returns when those goroutines are gone.
+func (m *faceMapT) closeFace(logical uint64) {
+	m.id(logical)
+	t := m.tr[logical]
+	if t == nil {
+		return
+	}
+	before := runtime.NumGoroutine()
+	t.Close()
+	waitGoroutines(before - 2)
+	m.tr[logical] = nil
+}
+
 func (m *faceMapT) release() {
-	for _, id := range m.real {
+	for l, id := range m.real {
 		if face.FaceTable.Get(id) != nil {
 			face.FaceTable.Remove(id)
+		}
+		if m.tr[l] != nil {
+			m.closeFace(l)
 		}
 	}
 }
@@ -574,7 +608,11 @@ func applyRib(o op) {
 	case "unreg":
 		table.Rib.RemoveRouteEnc(o.ename(), curFaces.id(o.a[0]), o.a[1])
 	case "cleanup":
-		face.FaceTable.Remove(curFaces.id(o.a[0])) // the real teardown path; possibly for a face that is already gone
+		if len(o.a) > 1 && o.a[1] == 1 && curFaces.tr[o.a[0]] != nil {
+			curFaces.closeFace(o.a[0]) // the transport ends: teardown by the face's own goroutines
+		} else {
+			face.FaceTable.Remove(curFaces.id(o.a[0])) // management faces/destroy: out of the tables, transport still running
+		}
 	}
 }
 
@@ -968,6 +1006,19 @@ func (g *gen) ribCase(id string, m int, impl string) *tcase {
 			c.ops = append(c.ops, op{via: g.via(), kind: "unreg", name: n, a: []uint64{face, origin}})
 		default:
 			c.ops = append(c.ops, op{kind: "cleanup", name: nil, a: []uint64{face}})
+		}
+	}
+	// the last operation that names a face, if it is a cleanup, is in one case of two the transport closing (the face's
+	// own goroutines tear it down) -- typically after an earlier destroy and registrations in between
+	lastUse := map[uint64]int{}
+	for i, o := range c.ops {
+		if (o.kind == "reg" || o.kind == "unreg" || o.kind == "cleanup") && len(o.a) > 0 {
+			lastUse[o.a[0]] = i
+		}
+	}
+	for f, i := range lastUse {
+		if c.ops[i].kind == "cleanup" && (f+uint64(len(c.ops)))%2 == 0 {
+			c.ops[i].a = []uint64{f, 1}
 		}
 	}
 	return c
